@@ -134,7 +134,59 @@ def pause_actions_writes_both(ctx):
                   "value-shape", pause.loc(i), "deadline = steady now + duration",
                   "deadline written from unexpected expression: " + rhs)
 
+def pause_gate_reads_own_deadline(ctx, tag):
+    """'Each matching cgroup has its own post-action pause' / 'rulesets do not influence one another' / 'a suspended chain is resumed on the
+    next tick': whether a Ruleset object may act on this tick is decided by ITS OWN pause deadline.  The conditions in runOnceImpl that look
+    at the clock - new helpers they call included - read no field of any other Ruleset object (a template pointer, the instance map): a gate
+    that looks at a sibling's deadline freezes this instance's suspended chain for as long as the sibling's pause lasts."""
+    from ..inline import known_functions
+    P, cg = ctx.prog, ctx.cg
+    impl = ctx.use(ctx.fn1("Oomd::Engine::Ruleset::runOnceImpl"))
+    kn = known_functions()
+    gates = [i for i, nd in enumerate(impl.nodes) if nd.get("k") == "if" and "c" in nd and "steady_clock::now()" in Expander(P, impl)(nd["c"])]
+    # a gate spelled through a new helper: the helper's body mentions the clock
+    def helper_fns(f, node, depth=0):
+        out = []
+        for x in f.walk(node):
+            nd = f.nodes[x]
+            if nd.get("k") == "call" and nd.get("cusr"):
+                for u in P.resolve(nd["cusr"]):
+                    h = P.fns.get(u)
+                    if h is not None and h.file.startswith("oomd/") and h.kind != "lambda" and kn is not None and plain(h.d.get("qname", "")) not in kn[0] and depth < 3:
+                        out.append(h)
+                        out += helper_fns(h, h.body if isinstance(h.body, int) and h.body >= 0 else 0, depth + 1)
+        return out
+    for i, nd in enumerate(impl.nodes):
+        if nd.get("k") == "if" and "c" in nd and i not in gates:
+            hs = helper_fns(impl, nd["c"])
+            if any(any(y.get("k") == "call" and (y.get("callee") or "").endswith("steady_clock::now") for y in h.nodes) for h in hs):
+                gates.append(i)
+    ctx.counters[tag + "_pause_gates"] = len(gates)
+    ctx.floor(tag + "_pause_gates", 1, "clock-reading conditions in Ruleset::runOnceImpl")
+    for gi in gates:
+        scope_ = [(impl, impl.nodes[gi]["c"])] + [(h, h.body if isinstance(h.body, int) and h.body >= 0 else 0) for h in helper_fns(impl, impl.nodes[gi]["c"])]
+        foreign = []
+        for f_, root in scope_:
+            ctx.use(f_)
+            for x in f_.walk(root):
+                nd = f_.nodes[x]
+                if nd.get("k") != "member" or not (nd.get("qname") or "").startswith("Oomd::Engine::Ruleset::"):
+                    continue
+                base = f_.nodes[f_.strip(nd["base"])] if "base" in nd else {}
+                fld = nd["name"]
+                if base.get("k") != "this":
+                    foreign.append("%s in %s" % (f_.text(x)[:50], short(f_)))
+                elif fld in ("runnable_rulesets_",) or (kn is not None and fld not in ("pause_actions_until_", "silenced_logs_", "name_", "cgroup_", "enabled_", "active_action_chain_state_",
+                                                                                         "post_action_delay_", "plugin_overrode_post_action_delay_")):
+                    foreign.append("this->%s in %s" % (fld, short(f_)))
+        ctx.check(not foreign, "%s:pause-gate-reads-own-deadline@%d" % (tag, impl.nodes[gi].get("line", 0)), "field-read (helpers followed)", impl.loc(gi),
+                  "the pause gate reads only this Ruleset object's own deadline",
+                  "the pause gate of Ruleset::runOnceImpl at line %d depends on another Ruleset object's state (%s): an instance's chain start - and the resumption of "
+                  "its suspended chain, which sits behind the same gate - is held back by a pause that is not its own" % (impl.nodes[gi].get("line", 0), "; ".join(sorted(set(foreign))[:3])))
+
+
 def run(ctx):
+    pause_gate_reads_own_deadline(ctx, "C05")
     from .C11 import instances_leave_only_through_the_sweep
     instances_leave_only_through_the_sweep(ctx)      # the per-cgroup post-action pause lives in the instance
     from .C13 import compile_keeps_nothing_between_calls
